@@ -80,5 +80,21 @@ func c08Step(twin bool) {
 
 func VerifC08() { c08Step(false) }
 
+// VerifC08TwinDrop: reachability twin for the short lengths (nothing can be forwarded there): the
+// claim "the packet is never discarded" must be violated.
+func VerifC08TwinDrop() {
+	r := vrSetup()
+	n := verif.Param("len")
+	raw := verif.NondetBytes("pkt", n)
+	buf := new([bufSize]byte)
+	headroom := verif.Param("headroom")
+	copy(buf[headroom:], raw)
+	pkt := &Packet{buffer: buf}
+	pkt.RawPacket = buf[headroom : headroom+n]
+	pkt.Link = r.links[vrIngress(r)]
+	disp := newPacketProcessor(r.d).processPkt(pkt)
+	verif.Assert("twin", disp != pDiscard)
+}
+
 // VerifC08Twin: a forwarded packet exists among the byte strings of this length.
 func VerifC08Twin() { c08Step(true) }
